@@ -14,7 +14,7 @@ RULE = ("42 classes x offering tables x argument tuples with at most k deviation
         "block commands (products above 2^22 bytes skipped) ; ATA PASS-THROUGH 12/16: full product t_length(4) x byte_block x t_type x t_dir x "
         "data given/omitted x blocksize {0,512,4096} x extra_tl {None,3} x count/features {0,1,2,max8,(max16)} ; MODE SELECT / PR OUT / EXTENDED COPY "
         "with parameter dictionaries of several sizes. Every constructed command is executed on an SG_IO and an iSCSI device (stand-ins), which take "
-        "len() of both buffers; the iSCSI task direction/length is compared with the same numbers. Non-trivial = a deviation or a non-default "
+        "len() of both buffers; the iSCSI task direction/length is compared with the same numbers; afterwards the result is decoded (unmarshall) and both buffers must still be the same objects of the same length. Non-trivial = a deviation or a non-default "
         "block size; distinct = distinct (class, table, tuple, blocksize).")
 ASSUMPTIONS = [
     "expected lengths are computed from the CDB bytes with vf/spec/cdb.py: ALLOCATION LENGTH, TRANSFER LENGTH x block size, PARAMETER LIST LENGTH, SAT transfer rules (T_LENGTH selects FEATURES/COUNT/TPSIU, BYT_BLOK/T_TYPE select 1/512/sector size, T_DIR the direction)",
@@ -216,6 +216,22 @@ def run_case(case, obs=None):
         obs.append((li, lo))
     if li is not None:
         v += transports(cmd, where, name)
+        # decoding the result must leave the buffers as they are: the command can be issued again (retry, poll) with the same CDB
+        if hasattr(cmd, "unmarshall_datain"):
+            before = (id(cmd.datain), len(cmd.datain), id(cmd.dataout), len(cmd.dataout))
+            try:
+                if name == "ReadCd":
+                    cmd.unmarshall(**{k: v2 for k, v2 in point.items()})
+                elif name == "Inquiry":
+                    cmd.unmarshall(evpd=point.get("evpd", 0))
+                else:
+                    cmd.unmarshall()
+            except Exception:   # noqa: BLE001 - zero-filled data need not decode
+                pass
+            after = (id(cmd.datain), len(cmd.datain), id(cmd.dataout), len(cmd.dataout))
+            if after != before:
+                v.append(("buffers_changed_by_decode/%s" % name, "%s: after unmarshall() the data-in buffer has %d bytes (was %d); the CDB still announces %d"
+                          % (where, after[1], before[1], before[1])))
     return v
 
 
@@ -257,6 +273,10 @@ def run_partition(part, tier, seed):
                 point["extra_tl"] = xtl
             do([name, st, key, point, None, 0], True)
         return acc
+    if name == "ReadCd":
+        # the selection arguments interact: full product of sector type x main channel selection x C2 x sub-channel x length
+        for est, mcsb, c2, sc, tl in itertools.product(range(6), (0, 0x02, 0x03, 0x06, 0x0A, 0x10, 0x1F), (0, 1, 2), (0, 2, 4), (0, 1, 2, 3)):
+            do([name, st, key, {"lba": 0x10, "tl": tl, "est": est, "mcsb": mcsb, "c2ei": c2, "scsb": sc}, None, 0], True)
     sizes = (1, 512, 520, 4096) if name in BLOCK else (None,)
     variants = range(3) if name in ("PersistentReserveOut", "ExtendedCopy4", "ExtendedCopy5") else (0,)
     for point, r in CS.points(name, k, MAXBYTES):
